@@ -1,2 +1,1160 @@
 (* Registry_proofs.v — lemmas about model/Registry.v (registry.py). *)
 From Koreo Require Import Registry.
+From Coq Require Import Lia Relations Relation_Operators Operators_Properties FinFun.
+
+Local Open Scope nat_scope.
+Local Open Scope list_scope.
+
+(* ================================================================ sets *)
+
+Lemma mem_In x l : mem x l = true <-> In x l.
+Proof.
+  unfold mem. rewrite existsb_exists. split.
+  - intros (y & Hy & E). apply Nat.eqb_eq in E. now subst.
+  - intros H. exists x. split; [assumption|apply Nat.eqb_refl].
+Qed.
+
+Lemma mem_false x l : mem x l = false <-> ~ In x l.
+Proof.
+  rewrite <- mem_In. destruct (mem x l); split; congruence.
+Qed.
+
+Lemma dedup_In x l : In x (dedup l) <-> In x l.
+Proof.
+  induction l as [|a l IH]; simpl; [tauto|].
+  destruct (mem a l) eqn:M.
+  - rewrite IH. apply mem_In in M. split; [tauto|]. intros [->|H]; assumption.
+  - simpl. rewrite IH. tauto.
+Qed.
+
+Lemma dedup_NoDup l : NoDup (dedup l).
+Proof.
+  induction l as [|a l IH]; simpl; [constructor|].
+  destruct (mem a l) eqn:M; [assumption|].
+  constructor; [|assumption]. rewrite dedup_In. now apply mem_false.
+Qed.
+
+Lemma edge_eqb_eq a b : edge_eqb a b = true <-> a = b.
+Proof.
+  destruct a as [a1 a2], b as [b1 b2]. unfold edge_eqb. simpl.
+  rewrite andb_true_iff, !Nat.eqb_eq. split; [intros [-> ->]; reflexivity|].
+  intros H. injection H. auto.
+Qed.
+
+Lemma edge_eqb_neq a b : edge_eqb a b = false <-> a <> b.
+Proof.
+  rewrite <- edge_eqb_eq. destruct (edge_eqb a b); split; congruence.
+Qed.
+
+Lemma emem_In e d : emem e d = true <-> In e d.
+Proof.
+  unfold emem. rewrite existsb_exists. split.
+  - intros (y & Hy & E). apply edge_eqb_eq in E. now subst.
+  - intros H. exists e. split; [assumption|now apply edge_eqb_eq].
+Qed.
+
+Lemma emem_false e d : emem e d = false <-> ~ In e d.
+Proof.
+  rewrite <- emem_In. destruct (emem e d); split; congruence.
+Qed.
+
+Lemma dget_In k v d : In v (dget k d) <-> In (k, v) d.
+Proof.
+  unfold dget. rewrite in_map_iff. split.
+  - intros ([a b] & <- & H). apply filter_In in H. simpl in H.
+    destruct H as [H E]. apply Nat.eqb_eq in E. now subst.
+  - intros H. exists (k, v). split; [reflexivity|]. apply filter_In. simpl.
+    split; [assumption|apply Nat.eqb_refl].
+Qed.
+
+Lemma NoDup_filter {A} (f : A -> bool) l : NoDup l -> NoDup (filter f l).
+Proof.
+  induction 1 as [|a l Hn Hd IH]; simpl; [constructor|].
+  destruct (f a); [|assumption]. constructor; [|assumption].
+  rewrite filter_In. tauto.
+Qed.
+
+Lemma dget_NoDup k d : NoDup d -> NoDup (dget k d).
+Proof.
+  unfold dget. induction 1 as [|[a b] l Hn Hd IH]; simpl; [constructor|].
+  destruct (Nat.eqb a k) eqn:E; simpl; [|assumption].
+  constructor; [|assumption]. apply Nat.eqb_eq in E. subst.
+  intros H. apply Hn. now apply (dget_In k b l).
+Qed.
+
+Lemma dadd_In k v d e : In e (dadd k v d) <-> e = (k, v) \/ In e d.
+Proof.
+  unfold dadd. destruct (emem (k, v) d) eqn:M; simpl.
+  - apply emem_In in M. split; [tauto|]. intros [->|H]; assumption.
+  - split; intros [H|H]; auto.
+Qed.
+
+Lemma dadd_NoDup k v d : NoDup d -> NoDup (dadd k v d).
+Proof.
+  unfold dadd. destruct (emem (k, v) d) eqn:M; [trivial|].
+  intros H. constructor; [now apply emem_false|assumption].
+Qed.
+
+Lemma dremove_None k v d : dremove k v d = None <-> ~ In (k, v) d.
+Proof.
+  unfold dremove. rewrite <- emem_false. destruct (emem (k, v) d); split; congruence.
+Qed.
+
+Lemma dremove_Some k v d d' :
+  dremove k v d = Some d' ->
+  In (k, v) d /\ (forall e, In e d' <-> In e d /\ e <> (k, v)) /\ (NoDup d -> NoDup d').
+Proof.
+  unfold dremove. destruct (emem (k, v) d) eqn:M; [|discriminate].
+  intros H. injection H as <-. apply emem_In in M. split; [assumption|]. split.
+  - intros e. rewrite filter_In, negb_true_iff, edge_eqb_neq. intuition congruence.
+  - apply NoDup_filter.
+Qed.
+
+Lemma dassign_In k vs d a b :
+  In (a, b) (dassign k vs d) <-> (a = k /\ In b vs) \/ (a <> k /\ In (a, b) d).
+Proof.
+  unfold dassign. rewrite in_app_iff, in_map_iff, filter_In, negb_true_iff, Nat.eqb_neq. simpl.
+  split.
+  - intros [(v & E & H)|[H N]].
+    + injection E as <- <-. left. split; [reflexivity|now apply dedup_In].
+    + right. tauto.
+  - intros [[-> H]|[N H]].
+    + left. exists b. split; [reflexivity|now apply dedup_In].
+    + right. tauto.
+Qed.
+
+Lemma NoDup_app_intro {A} (l1 l2 : list A) :
+  NoDup l1 -> NoDup l2 -> (forall x, In x l1 -> In x l2 -> False) -> NoDup (l1 ++ l2).
+Proof.
+  induction 1 as [|a l Hn Hd IH]; simpl; intros H2 Hx; [assumption|].
+  constructor.
+  - rewrite in_app_iff. intros [H|H]; [now apply Hn|]. apply (Hx a); auto.
+  - apply IH; [assumption|]. intros x H1 H3. apply (Hx x); auto.
+Qed.
+
+Lemma dassign_NoDup k vs d : NoDup d -> NoDup (dassign k vs d).
+Proof.
+  intros Hd. unfold dassign. apply NoDup_app_intro.
+  - apply FinFun.Injective_map_NoDup; [|apply dedup_NoDup].
+    intros x y H. now injection H.
+  - now apply NoDup_filter.
+  - intros [a b] H1 H2. apply in_map_iff in H1. destruct H1 as (v & E & _).
+    injection E as <- <-. apply filter_In in H2. simpl in H2.
+    rewrite Nat.eqb_refl in H2. destruct H2 as [_ H2]. discriminate.
+Qed.
+
+(* =============================================================== graphs *)
+
+(* the watch graph: [E w a b] = a watches b *)
+Definition E (w : dset) : relation nat := fun a b => In (a, b) w.
+Notation ct := (clos_trans nat).
+Notation rtc := (clos_refl_trans nat).
+Definition acyclic (w : dset) : Prop := forall x, ~ ct (E w) x x.
+
+Lemma ct_mono (R1 R2 : relation nat) :
+  (forall a b, R1 a b -> R2 a b) -> forall a b, ct R1 a b -> ct R2 a b.
+Proof.
+  intros H a b C. induction C as [a b S|a b c _ IH1 _ IH2].
+  - apply t_step. auto.
+  - eapply t_trans; eassumption.
+Qed.
+
+Lemma rtc_mono (R1 R2 : relation nat) :
+  (forall a b, R1 a b -> R2 a b) -> forall a b, rtc R1 a b -> rtc R2 a b.
+Proof.
+  intros H a b C. induction C as [a b S|a|a b c _ IH1 _ IH2].
+  - apply rt_step. auto.
+  - apply rt_refl.
+  - eapply rt_trans; eassumption.
+Qed.
+
+Lemma ct_rtc (R : relation nat) a b : ct R a b -> rtc R a b.
+Proof.
+  induction 1 as [a b S|a b c _ IH1 _ IH2]; [now apply rt_step|eapply rt_trans; eassumption].
+Qed.
+
+Lemma rtc_cases (R : relation nat) a b : rtc R a b -> a = b \/ ct R a b.
+Proof.
+  induction 1 as [a b S|a|a b c _ IH1 _ IH2].
+  - right. now apply t_step.
+  - now left.
+  - destruct IH1 as [->|H1]; [assumption|].
+    destruct IH2 as [<-|H2]; [now right|]. right. eapply t_trans; eassumption.
+Qed.
+
+Lemma rtc_ct (R : relation nat) a b c : rtc R a b -> ct R b c -> ct R a c.
+Proof.
+  intros H1 H2. destruct (rtc_cases _ _ _ H1) as [->|H]; [assumption|].
+  eapply t_trans; eassumption.
+Qed.
+
+Lemma ct_rtc_ct (R : relation nat) a b c : ct R a b -> rtc R b c -> ct R a c.
+Proof.
+  intros H1 H2. destruct (rtc_cases _ _ _ H2) as [<-|H]; [assumption|].
+  eapply t_trans; eassumption.
+Qed.
+
+(* rtc, peeling the first step *)
+Lemma rtc_first (R : relation nat) a b : rtc R a b -> a = b \/ exists y, R a y /\ rtc R y b.
+Proof.
+  intros H. apply clos_rt_rt1n in H. destruct H as [|y z S H]; [now left|].
+  right. exists y. split; [assumption|]. now apply clos_rt1n_rt.
+Qed.
+
+(* Adding edges that all leave one node [s] (towards nodes in [R]) to a graph
+   E0: every path of the new graph is an old path, or passes through s and a
+   new edge, or some target already reached s in the old graph. *)
+Lemma add_edges_ct (E0 E' : relation nat) (s : nat) (R : nat -> Prop) :
+  (forall a b, E' a b -> E0 a b \/ (a = s /\ R b)) ->
+  forall x y, ct E' x y ->
+    ct E0 x y \/ (rtc E0 x s /\ exists r, R r /\ rtc E0 r y) \/ (exists r, R r /\ rtc E0 r s).
+Proof.
+  intros HE x y C. induction C as [x y S|x y z _ IH1 _ IH2].
+  - destruct (HE _ _ S) as [H|[-> H]].
+    + left. now apply t_step.
+    + right. left. split; [apply rt_refl|]. exists y. split; [assumption|apply rt_refl].
+  - destruct IH1 as [L1|[[X1 (r1 & R1 & Y1)]|H1]]; [| |right; right; assumption].
+    + destruct IH2 as [L2|[[X2 (r2 & R2 & Y2)]|H2]]; [| |right; right; assumption].
+      * left. eapply t_trans; eassumption.
+      * right. left. split.
+        -- eapply rt_trans; [apply ct_rtc; eassumption|assumption].
+        -- exists r2. auto.
+    + destruct IH2 as [L2|[[X2 (r2 & R2 & Y2)]|H2]]; [| |right; right; assumption].
+      * right. left. split; [assumption|]. exists r1. split; [assumption|].
+        eapply rt_trans; [eassumption|apply ct_rtc; assumption].
+      * right. right. exists r1. split; [assumption|]. eapply rt_trans; eassumption.
+Qed.
+
+(* a cycle in the extended graph needs a target that already reached s *)
+Lemma new_cycle_needs_reach (E0 E' : relation nat) (s : nat) (R : nat -> Prop) :
+  (forall a b, E' a b -> E0 a b \/ (a = s /\ R b)) ->
+  (forall x, ~ ct E0 x x) ->
+  forall x, ct E' x x -> exists r, R r /\ rtc E0 r s.
+Proof.
+  intros HE Hac x C. destruct (add_edges_ct E0 E' s R HE x x C) as [L|[[X (r & Rr & Y)]|H]].
+  - destruct (Hac x L).
+  - exists r. split; [assumption|]. eapply rt_trans; eassumption.
+  - assumption.
+Qed.
+
+(* ---- walks, and their length in an acyclic graph *)
+
+Inductive walk (R : relation nat) : nat -> list nat -> Prop :=
+| walk_nil x : walk R x []
+| walk_cons x y l : R x y -> walk R y l -> walk R x (y :: l).
+
+Lemma walk_ct R x l y : walk R x l -> In y l -> ct R x y.
+Proof.
+  induction 1 as [x|x z l S W IH]; simpl; [tauto|].
+  intros [<-|H]; [now apply t_step|].
+  eapply t_trans; [apply t_step; eassumption|auto].
+Qed.
+
+Lemma walk_NoDup R x l : (forall z, ~ ct R z z) -> walk R x l -> NoDup (x :: l).
+Proof.
+  intros Hac W. induction W as [x|x y l S W IH].
+  - constructor; [simpl; tauto|constructor].
+  - constructor; [|assumption].
+    intros H. apply (Hac x). eapply walk_ct; [|eassumption]. now constructor.
+Qed.
+
+Lemma nodes_In w x : In x (nodes w) <-> (exists y, In (x, y) w) \/ (exists y, In (y, x) w).
+Proof.
+  unfold nodes. rewrite dedup_In, in_app_iff, !in_map_iff. split.
+  - intros [([a b] & <- & H)|([a b] & <- & H)]; [left|right]; eauto.
+  - intros [(y & H)|(y & H)]; [left; exists (x, y)|right; exists (y, x)]; auto.
+Qed.
+
+Lemma walk_in_nodes w x l : walk (E w) x l -> incl l (nodes w).
+Proof.
+  induction 1 as [x|x y l S W IH]; intros z; simpl; [tauto|].
+  intros [<-|H]; [|auto]. apply nodes_In. right. exists x. exact S.
+Qed.
+
+Lemma walk_length w x l : acyclic w -> walk (E w) x l -> List.length l <= List.length (nodes w).
+Proof.
+  intros Hac W. apply NoDup_incl_length; [|eapply walk_in_nodes; eassumption].
+  pose proof (walk_NoDup _ _ _ Hac W) as H. now inversion H.
+Qed.
+
+(* ---- the level-by-level search of _check_for_cycles *)
+
+Lemma next_level_In w tc y : In y (next_level w tc) <-> exists c, In c tc /\ E w c y.
+Proof.
+  unfold next_level. rewrite dedup_In, in_flat_map. unfold E.
+  split; intros (c & H1 & H2); exists c; (split; [assumption|]); now apply dget_In.
+Qed.
+
+(* the fuel is enough when walks are short *)
+Lemma bfs_fuel w s : forall m fuel tc,
+  (forall x l, In x tc -> walk (E w) x l -> List.length l <= m) ->
+  m + 2 <= fuel -> bfs fuel w s tc <> OutOfFuel.
+Proof.
+  induction m as [|m IH]; intros fuel tc Hw Hf.
+  - destruct fuel as [|[|f]]; try lia. simpl.
+    destruct tc as [|c tc]; [discriminate|].
+    destruct (mem s (c :: tc)); [discriminate|].
+    assert (N : next_level w (c :: tc) = []).
+    { destruct (next_level w (c :: tc)) as [|y r] eqn:Eq; [reflexivity|].
+      assert (In y (next_level w (c :: tc))) as H by (rewrite Eq; now left).
+      apply next_level_In in H. destruct H as (c' & Hc & Hy).
+      specialize (Hw c' [y] Hc (walk_cons _ _ _ _ Hy (walk_nil _ _))). simpl in Hw. lia. }
+    rewrite N. discriminate.
+  - destruct fuel as [|f]; [lia|]. simpl.
+    destruct tc as [|c tc]; [discriminate|].
+    destruct (mem s (c :: tc)); [discriminate|].
+    apply IH; [|lia]. intros y l Hy W.
+    apply next_level_In in Hy. destruct Hy as (c' & Hc & Hy).
+    specialize (Hw c' (y :: l) Hc (walk_cons _ _ _ _ Hy W)). simpl in Hw. lia.
+Qed.
+
+Lemma bfs_nocycle w s : forall fuel tc,
+  bfs fuel w s tc = NoCycle -> forall r, In r tc -> ~ rtc (E w) r s.
+Proof.
+  induction fuel as [|f IH]; intros tc; simpl; [discriminate|].
+  destruct tc as [|c tc]; [intros _ r []|].
+  destruct (mem s (c :: tc)) eqn:M; [discriminate|].
+  intros H r Hr C. apply mem_false in M.
+  destruct (rtc_first _ _ _ C) as [->|(y & S & C')]; [tauto|].
+  apply (IH _ H y); [|assumption]. apply next_level_In. eauto.
+Qed.
+
+Lemma bfs_cycle w s : forall fuel tc,
+  bfs fuel w s tc = CycleFound -> exists r, In r tc /\ rtc (E w) r s.
+Proof.
+  induction fuel as [|f IH]; intros tc; simpl; [discriminate|].
+  destruct tc as [|c tc]; [discriminate|].
+  destruct (mem s (c :: tc)) eqn:M.
+  - intros _. apply mem_In in M. exists s. split; [assumption|apply rt_refl].
+  - intros H. destruct (IH _ H) as (y & Hy & C).
+    apply next_level_In in Hy. destruct Hy as (c' & Hc & S).
+    exists c'. split; [assumption|]. eapply rt_trans; [apply rt_step; eassumption|assumption].
+Qed.
+
+(* _check_for_cycles on an acyclic graph: terminates, and decides exactly
+   "some requested resource already (transitively) watches the subscriber" *)
+Lemma check_fuel w s rs : acyclic w -> check_for_cycles w s rs <> OutOfFuel.
+Proof.
+  intros Hac. unfold check_for_cycles, fuel_for.
+  apply bfs_fuel with (m := List.length (nodes w)); [|lia].
+  intros x l _ W. now apply walk_length with (x := x).
+Qed.
+
+Lemma check_nocycle w s rs :
+  check_for_cycles w s rs = NoCycle -> forall r, In r rs -> ~ rtc (E w) r s.
+Proof.
+  intros H r Hr. eapply bfs_nocycle; [exact H|]. now apply dedup_In.
+Qed.
+
+Lemma check_cycle w s rs :
+  check_for_cycles w s rs = CycleFound -> exists r, In r rs /\ rtc (E w) r s.
+Proof.
+  intros H. destruct (bfs_cycle _ _ _ _ H) as (r & Hr & C). exists r.
+  split; [now apply dedup_In|assumption].
+Qed.
+
+Lemma check_nil w s : check_for_cycles w s [] = NoCycle.
+Proof. reflexivity. Qed.
+
+(* ======================================================== heap / queues *)
+
+Definition accounted (q : queue) : Prop := List.length (items q) <= unfinished q.
+
+Lemma upd_length i f h : List.length (upd i f h) = List.length h.
+Proof.
+  revert i. induction h as [|x h IH]; intros [|i]; simpl; auto.
+Qed.
+
+Lemma nth_error_upd i f h j :
+  nth_error (upd i f h) j = if Nat.eqb i j then option_map f (nth_error h j) else nth_error h j.
+Proof.
+  revert i j. induction h as [|x h IH]; intros i j.
+  - destruct i, j; simpl; try reflexivity. destruct (Nat.eqb i j); reflexivity.
+  - destruct i, j; simpl; try reflexivity. apply IH.
+Qed.
+
+Lemma Forall_upd (P : queue -> Prop) i f h :
+  (forall x, P x -> P (f x)) -> Forall P h -> Forall P (upd i f h).
+Proof.
+  intros Hf. revert i. induction h as [|x h IH]; intros [|i] H; simpl; auto;
+    inversion H; subst; constructor; auto.
+Qed.
+
+Lemma accounted_put e q : accounted q -> accounted (put_quiet e q).
+Proof.
+  unfold accounted, put_quiet, push. destruct (shut q); simpl; lia.
+Qed.
+
+Lemma accounted_kill q : accounted q -> accounted (kill_q q).
+Proof.
+  unfold accounted, kill_q. destruct (shut q); simpl; lia.
+Qed.
+
+Lemma drain_ok its unf :
+  List.length its <= unf -> drain its unf = ([], unf - List.length its, true).
+Proof.
+  revert unf. induction its as [|e its IH]; intros unf H; simpl in *.
+  - now rewrite Nat.sub_0_r.
+  - destruct unf as [|u]; [lia|]. rewrite IH by lia. reflexivity.
+Qed.
+
+Lemma fold_upd_length (f : queue -> queue) qs h :
+  List.length (fold_left (fun h q => upd q f h) qs h) = List.length h.
+Proof.
+  revert h. induction qs as [|q qs IH]; intros h; simpl; [reflexivity|].
+  now rewrite IH, upd_length.
+Qed.
+
+Lemma fold_upd_Forall (P : queue -> Prop) (f : queue -> queue) qs h :
+  (forall x, P x -> P (f x)) -> Forall P h -> Forall P (fold_left (fun h q => upd q f h) qs h).
+Proof.
+  intros Hf. revert h. induction qs as [|q qs IH]; intros h H; simpl; [assumption|].
+  apply IH. now apply Forall_upd.
+Qed.
+
+(* every queue index in [qs] is updated once, the others not at all *)
+Lemma fold_upd_nth (f : queue -> queue) qs : NoDup qs -> forall h j,
+  nth_error (fold_left (fun h q => upd q f h) qs h) j =
+  if mem j qs then option_map f (nth_error h j) else nth_error h j.
+Proof.
+  induction 1 as [|q qs Hn Hd IH]; intros h j; simpl; [reflexivity|].
+  rewrite IH, nth_error_upd. rewrite (Nat.eqb_sym j q).
+  destruct (Nat.eqb q j) eqn:Eq; simpl.
+  - apply Nat.eqb_eq in Eq. subst j.
+    apply mem_false in Hn. rewrite Hn. reflexivity.
+  - reflexivity.
+Qed.
+
+Lemma lookup_In k v m : lookup k m = Some v -> In (k, v) m.
+Proof.
+  induction m as [|[k' v'] m IH]; simpl; [discriminate|].
+  destruct (Nat.eqb k k') eqn:Eq.
+  - intros H. injection H as ->. apply Nat.eqb_eq in Eq. subst. now left.
+  - auto.
+Qed.
+
+Lemma lookup_None k m : lookup k m = None -> ~ In k (map fst m).
+Proof.
+  induction m as [|[k' v'] m IH]; simpl; [tauto|].
+  destruct (Nat.eqb k k') eqn:Eq; [discriminate|].
+  apply Nat.eqb_neq in Eq. intros H [H1|H1]; [congruence|now apply IH].
+Qed.
+
+Lemma In_lookup k v m : NoDup (map fst m) -> In (k, v) m -> lookup k m = Some v.
+Proof.
+  induction m as [|[k' v'] m IH]; simpl; [tauto|].
+  intros Hn [H|H].
+  - injection H as -> ->. now rewrite Nat.eqb_refl.
+  - inversion Hn as [|? ? Hk Hm]; subst.
+    destruct (Nat.eqb k k') eqn:Eq; [|auto].
+    apply Nat.eqb_eq in Eq. subst. destruct Hk. apply in_map_iff. exists (k', v). auto.
+Qed.
+
+Lemma NoDup_map_filter {A B} (g : A -> B) (f : A -> bool) l :
+  NoDup (map g l) -> NoDup (map g (filter f l)).
+Proof.
+  induction l as [|a l IH]; simpl; [trivial|].
+  intros H. inversion H as [|? ? Hn Hd]; subst.
+  destruct (f a); simpl; [|auto]. constructor; [|auto].
+  intros H1. apply Hn. apply in_map_iff in H1. destruct H1 as (x & <- & Hx).
+  apply filter_In in Hx. apply in_map. tauto.
+Qed.
+
+Lemma remove_key_In k m r q : In (r, q) (remove_key k m) <-> In (r, q) m /\ r <> k.
+Proof.
+  unfold remove_key. rewrite filter_In, negb_true_iff, Nat.eqb_neq. simpl. tauto.
+Qed.
+
+Lemma lookup_remove_key k m : lookup k (remove_key k m) = None.
+Proof.
+  induction m as [|[k' v'] m IH]; simpl; [reflexivity|].
+  destruct (Nat.eqb k' k) eqn:Eq; simpl; [assumption|].
+  rewrite Nat.eqb_sym, Eq. assumption.
+Qed.
+
+(* ============================================================ invariant *)
+
+Record inv_graph (s : state) : Prop := {
+  inv_inverse : forall a b, In (a, b) (subs s) <-> In (b, a) (watches s);
+  inv_acyclic : acyclic (watches s);
+  inv_nd_subs : NoDup (subs s);
+  inv_nd_watches : NoDup (watches s)
+}.
+
+Record inv_queues (s : state) : Prop := {
+  inv_qkeys : NoDup (map fst (queues s));
+  inv_qvals : NoDup (map snd (queues s));
+  inv_qbound : forall r q, In (r, q) (queues s) -> q < List.length (heap s);
+  inv_unf : Forall accounted (heap s)
+}.
+
+Definition inv (s : state) : Prop := inv_graph s /\ inv_queues s.
+
+Lemma inv_empty : inv empty.
+Proof.
+  split; constructor; simpl; try constructor; try tauto.
+  intros x C. apply clos_trans_tn1 in C. destruct C as [y []|y z [] _].
+Qed.
+
+(* ---- notify *)
+
+Lemma notify_inv n t s : inv s -> inv (notify n t s).
+Proof.
+  intros [G [K V B U]]. split.
+  - destruct G. constructor; assumption.
+  - constructor; simpl; try assumption.
+    + intros r q H. rewrite fold_upd_length. eauto.
+    + apply fold_upd_Forall; [|assumption]. intros x. apply accounted_put.
+Qed.
+
+(* ---- subscribe *)
+
+Lemma acyclic_add w sb rs (w' : dset) :
+  acyclic w ->
+  (forall a b, In (a, b) w' -> In (a, b) w \/ (a = sb /\ In b rs)) ->
+  (forall r, In r rs -> ~ rtc (E w) r sb) ->
+  acyclic w'.
+Proof.
+  intros Hac Hsub Hno x C.
+  destruct (new_cycle_needs_reach (E w) (E w') sb (fun r => In r rs) Hsub Hac x C) as (r & Hr & Hc).
+  exact (Hno r Hr Hc).
+Qed.
+
+Lemma subscribe_inv sb r s : inv s -> inv (fst (subscribe sb r s)).
+Proof.
+  intros [G Qi]. unfold subscribe.
+  destruct (check_for_cycles (watches s) sb [r]) eqn:Ck; simpl; try (split; assumption).
+  split; [|destruct Qi; constructor; assumption].
+  destruct G as [I A N1 N2]. constructor; simpl.
+  - intros a b. rewrite !dadd_In, I. split; (intros [H|H]; [left; congruence|now right]).
+  - eapply acyclic_add with (rs := [r]); [exact A| |exact (check_nocycle _ _ _ Ck)].
+    intros a b H. apply dadd_In in H. destruct H as [H|H]; [|now left].
+    injection H as -> ->. right. simpl. auto.
+  - now apply dadd_NoDup.
+  - now apply dadd_NoDup.
+Qed.
+
+(* ---- subscribe_only_to *)
+
+Lemma fold_dadd_In sb l : forall d e,
+  In e (fold_left (fun d r => dadd r sb d) l d) <-> In e d \/ exists r, In r l /\ e = (r, sb).
+Proof.
+  induction l as [|x l IH]; intros d e; simpl.
+  - split; [auto|]. intros [H|(r & [] & _)]. assumption.
+  - rewrite IH, dadd_In. split.
+    + intros [[->|H]|(r & Hr & ->)]; eauto.
+    + intros [H|(r & [<-|Hr] & ->)]; eauto.
+Qed.
+
+Lemma fold_dadd_NoDup sb l : forall d,
+  NoDup d -> NoDup (fold_left (fun d r => dadd r sb d) l d).
+Proof.
+  induction l as [|x l IH]; intros d H; simpl; [assumption|]. apply IH. now apply dadd_NoDup.
+Qed.
+
+Lemma remove_all_ok sb l : NoDup l -> forall d,
+  (forall r, In r l -> In (r, sb) d) ->
+  exists d', remove_all sb l d = (d', true) /\
+             (forall a b, In (a, b) d' <-> In (a, b) d /\ ~ (b = sb /\ In a l)) /\
+             (NoDup d -> NoDup d').
+Proof.
+  induction 1 as [|x l Hn Hd IH]; intros d Hin; simpl.
+  - exists d. split; [reflexivity|]. split; [|trivial]. intros a b. tauto.
+  - destruct (dremove x sb d) as [d1|] eqn:R.
+    2:{ apply dremove_None in R. destruct R. apply Hin. now left. }
+    destruct (dremove_Some _ _ _ _ R) as (_ & Hd1 & Hnd1).
+    destruct (IH d1) as (d' & Eq & Hd' & Hnd').
+    { intros r Hr. apply Hd1. split; [apply Hin; now right|].
+      intros H. injection H as ->. contradiction. }
+    exists d'. split; [assumption|]. split; [|auto].
+    intros a b. rewrite Hd', Hd1. split.
+    + intros [[H1 H2] H3]. split; [assumption|]. intros [-> [<-|H4]]; [now apply H2|apply H3; auto].
+    + intros [H1 H2]. split; [split; [assumption|]|].
+      * intros H. injection H as -> ->. apply H2. auto.
+      * intros [-> H]. apply H2. auto.
+Qed.
+
+Lemma subscribe_only_inv sb rs s :
+  inv s -> inv (fst (subscribe_only_to sb rs s)) /\
+           snd (subscribe_only_to sb rs s) <> Raised KeyError /\
+           snd (subscribe_only_to sb rs s) <> ROutOfFuel.
+Proof.
+  intros [G Qi]. unfold subscribe_only_to.
+  destruct (check_for_cycles (watches s) sb rs) eqn:Ck; simpl.
+  2:{ split; [split; assumption|split; discriminate]. }
+  2:{ exfalso. eapply check_fuel; [apply (inv_acyclic _ G)|exact Ck]. }
+  destruct G as [I A N1 N2].
+  set (current := dget sb (watches s)).
+  set (new := dedup rs).
+  set (subs1 := fold_left _ _ (subs s)).
+  destruct (remove_all_ok sb (filter (fun r => negb (mem r new)) current)) with (d := subs1)
+    as (subs2 & Eq & H2 & Hnd2).
+  { apply NoDup_filter. now apply dget_NoDup. }
+  { intros r Hr. apply filter_In in Hr. destruct Hr as [Hr _].
+    apply fold_dadd_In. left. apply I. now apply dget_In. }
+  rewrite Eq. simpl. split; [|split; discriminate].
+  split; [|destruct Qi; constructor; assumption].
+  constructor; simpl.
+  - intros a b. rewrite H2, dassign_In. unfold subs1. rewrite fold_dadd_In.
+    destruct (Nat.eq_dec b sb) as [->|Nb].
+    + assert (P1 : In (a, sb) (subs s) <-> In a current).
+      { unfold current. rewrite dget_In. apply I. }
+      assert (P2 : (exists r, In r (filter (fun r => negb (mem r current)) new) /\ (a, sb) = (r, sb))
+                   <-> In a new /\ ~ In a current).
+      { split.
+        - intros (r & Hr & Er). injection Er as <-. apply filter_In in Hr.
+          rewrite negb_true_iff, mem_false in Hr. exact Hr.
+        - intros [Hn Hc]. exists a. split; [|reflexivity]. apply filter_In.
+          rewrite negb_true_iff, mem_false. auto. }
+      assert (P3 : In a (filter (fun r => negb (mem r new)) current) <-> In a current /\ ~ In a new).
+      { rewrite filter_In, negb_true_iff, mem_false. tauto. }
+      assert (Dc : In a current \/ ~ In a current).
+      { destruct (mem a current) eqn:M; [left; now apply mem_In|right; now apply mem_false]. }
+      assert (Dn : In a new \/ ~ In a new).
+      { destruct (mem a new) eqn:M; [left; now apply mem_In|right; now apply mem_false]. }
+      rewrite P1, P2, P3. tauto.
+    + rewrite I. split.
+      * intros [[H|(r & _ & Er)] _]; [right; auto|]. injection Er as _ Er. congruence.
+      * intros [[H _]|[_ H]]; [congruence|]. split; [now left|]. intros [H3 _]. congruence.
+  - eapply acyclic_add with (rs := rs); [exact A| |exact (check_nocycle _ _ _ Ck)].
+    intros a b H. apply dassign_In in H. unfold new in H. rewrite dedup_In in H. tauto.
+  - apply Hnd2. unfold subs1. now apply fold_dadd_NoDup.
+  - now apply dassign_NoDup.
+Qed.
+
+(* ---- unsubscribe *)
+
+Lemma acyclic_sub w w' : acyclic w -> (forall a b, In (a, b) w' -> In (a, b) w) -> acyclic w'.
+Proof.
+  intros Hac Hsub x C. apply (Hac x). eapply ct_mono; [|exact C]. exact Hsub.
+Qed.
+
+Lemma unsubscribe_inv u r s : inv s -> inv (fst (unsubscribe u r s)).
+Proof.
+  intros [G Qi]. unfold unsubscribe.
+  destruct (dremove r u (subs s)) as [s'|] eqn:R1; simpl; [|split; assumption].
+  destruct (dremove_Some _ _ _ _ R1) as (In1 & H1 & Hn1).
+  destruct G as [I A N1 N2].
+  destruct (dremove u r (watches s)) as [w'|] eqn:R2; simpl.
+  2:{ apply dremove_None in R2. destruct R2. now apply I. }
+  destruct (dremove_Some _ _ _ _ R2) as (In2 & H2 & Hn2).
+  split; [|destruct Qi; constructor; assumption].
+  constructor; simpl; auto.
+  - intros a b. rewrite H1, H2, I. split; intros [H N]; (split; [assumption|]); congruence.
+  - apply (acyclic_sub _ _ A). intros a b H. now apply H2.
+Qed.
+
+(* unsubscribe on a consistent registry either removes the edge from both
+   views or raises KeyError and changes nothing *)
+Lemma unsubscribe_result u r s : inv s ->
+  (In (r, u) (subs s) /\ snd (unsubscribe u r s) = RNone) \/
+  (~ In (r, u) (subs s) /\ unsubscribe u r s = (s, Raised KeyError)).
+Proof.
+  intros [[I _ _ _] _]. unfold unsubscribe.
+  destruct (dremove r u (subs s)) as [s'|] eqn:R1.
+  - destruct (dremove_Some _ _ _ _ R1) as (In1 & _).
+    destruct (dremove u r (watches s)) as [w'|] eqn:R2; [left; auto|].
+    apply dremove_None in R2. destruct R2. now apply I.
+  - right. split; [now apply dremove_None|reflexivity].
+Qed.
+
+(* ---- register *)
+
+Lemma register_inv r t s : inv s -> inv (fst (register r t s)).
+Proof.
+  intros Hi. unfold register. destruct (lookup r (queues s)) as [q|] eqn:L; simpl; [assumption|].
+  apply notify_inv. destruct Hi as [G [K V B U]]. split.
+  - destruct G. constructor; assumption.
+  - constructor; simpl.
+    + constructor; [now apply lookup_None|assumption].
+    + constructor; [|assumption]. intros H. apply in_map_iff in H.
+      destruct H as ([r' q'] & Eq & H). simpl in Eq. subst q'. apply B in H. lia.
+    + intros r' q' [H|H]; rewrite app_length; simpl; [injection H as _ <-; lia|].
+      apply B in H. lia.
+    + apply Forall_app. split; [assumption|]. constructor; [|constructor].
+      unfold accounted. simpl. lia.
+Qed.
+
+(* ---- kill_resource *)
+
+Lemma kill_inv r s : inv s -> inv (fst (kill_resource r s)).
+Proof.
+  intros Hi. unfold kill_resource. destruct (lookup r (queues s)) as [q|]; simpl; [|assumption].
+  destruct Hi as [G [K V B U]]. split.
+  - destruct G. constructor; assumption.
+  - constructor; simpl; try assumption.
+    + intros r' q' H. rewrite upd_length. eauto.
+    + apply Forall_upd; [|assumption]. apply accounted_kill.
+Qed.
+
+(* ---- deregister *)
+
+Lemma subscribe_only_nil sb s : inv s ->
+  exists s1, subscribe_only_to sb [] s = (s1, RNone) /\ inv s1 /\
+             queues s1 = queues s /\ heap s1 = heap s /\
+             (forall a b, In (a, b) (watches s1) <-> In (a, b) (watches s) /\ a <> sb).
+Proof.
+  intros Hi. pose proof (subscribe_only_inv sb [] s Hi) as (H1 & H2 & H3).
+  unfold subscribe_only_to in *. rewrite check_nil in *.
+  destruct (remove_all sb _ _) as [subs2 [|]]; simpl in *; [|congruence].
+  eexists. split; [reflexivity|]. split; [assumption|]. simpl. split; [reflexivity|].
+  split; [reflexivity|]. intros a b. rewrite dassign_In. simpl. tauto.
+Qed.
+
+Lemma drain_q_accounted qu : accounted qu ->
+  drain_q qu = (Q [] (shut qu) (unfinished qu - List.length (items qu)), true).
+Proof.
+  intros H. unfold drain_q. now rewrite drain_ok.
+Qed.
+
+Lemma nth_error_Some_lt {A} (l : list A) n : n < List.length l -> exists x, nth_error l n = Some x.
+Proof.
+  intros H. destruct (nth_error l n) eqn:Eq; [eauto|]. apply nth_error_None in Eq. lia.
+Qed.
+
+Lemma Forall_nth_error {A} (P : A -> Prop) l n x : Forall P l -> nth_error l n = Some x -> P x.
+Proof.
+  intros H Eq. rewrite Forall_forall in H. apply H. eapply nth_error_In; eassumption.
+Qed.
+
+Lemma remove_key_absent k m : lookup k m = None -> remove_key k m = m.
+Proof.
+  induction m as [|[k' v'] m IH]; simpl; [reflexivity|].
+  destruct (Nat.eqb k k') eqn:Eq; [discriminate|]. intros H.
+  rewrite Nat.eqb_sym, Eq. simpl. now rewrite IH.
+Qed.
+
+Lemma lookup_remove_key_neq k x m : x <> k -> lookup x (remove_key k m) = lookup x m.
+Proof.
+  intros N. induction m as [|[k' v'] m IH]; simpl; [reflexivity|].
+  destruct (Nat.eqb k' k) eqn:Eq; simpl.
+  - apply Nat.eqb_eq in Eq. subst k'. apply Nat.eqb_neq in N. now rewrite N.
+  - now rewrite IH.
+Qed.
+
+(* what the old queue object looks like after _kill_resource + the drain loop *)
+Definition released (qu : queue) : queue :=
+  Q [] true (unfinished qu - List.length (items qu)).
+
+(* the shape of deregister on a consistent registry: drop own subscriptions
+   ([s1]), kill + drain + forget the queue ([mid]), then notify *)
+Lemma deregister_shape r t s : inv s ->
+  exists s1 mid, subscribe_only_to r [] s = (s1, RNone) /\ inv s1 /\
+    (forall a b, In (a, b) (watches s1) <-> In (a, b) (watches s) /\ a <> r) /\
+    deregister r t s = (notify r t mid, RNone) /\ inv mid /\
+    subs mid = subs s1 /\ watches mid = watches s1 /\
+    queues mid = remove_key r (queues s) /\
+    List.length (heap mid) = List.length (heap s) /\
+    (forall j, nth_error (heap mid) j =
+       match lookup r (queues s) with
+       | Some q => if Nat.eqb q j then option_map released (nth_error (heap s) j)
+                   else nth_error (heap s) j
+       | None => nth_error (heap s) j
+       end).
+Proof.
+  intros Hi. destruct (subscribe_only_nil r s Hi) as (s1 & Eq & Hi1 & Hq & Hh & Hw).
+  exists s1. unfold deregister. rewrite Eq, Hq, Hh.
+  destruct (lookup r (queues s)) as [q|] eqn:L.
+  2:{ exists s1. repeat (split; [assumption || reflexivity|]).
+      split; [rewrite Hq; symmetry; now apply remove_key_absent|].
+      split; [now rewrite Hh|]. intros j. now rewrite Hh. }
+  destruct Hi as [_ [K V B U]].
+  assert (Hlt : q < List.length (heap s)) by (eapply B, lookup_In; eassumption).
+  destruct (nth_error_Some_lt _ _ Hlt) as (qu & Hqu).
+  rewrite nth_error_upd, Nat.eqb_refl, Hqu. simpl.
+  assert (Aq : accounted qu) by (eapply Forall_nth_error; eassumption).
+  assert (Ak : accounted (kill_q qu)) by now apply accounted_kill.
+  rewrite (drain_q_accounted _ Ak).
+  assert (Rel : Q [] (shut (kill_q qu)) (unfinished (kill_q qu) - List.length (items (kill_q qu)))
+                = released qu).
+  { unfold released, kill_q. destruct (shut qu) eqn:Sh; simpl; rewrite ?Sh; reflexivity. }
+  rewrite Rel.
+  eexists. repeat (split; [assumption || reflexivity|]). simpl.
+  split; [|split; [reflexivity|split; [reflexivity|split; [reflexivity|split]]]].
+  - destruct Hi1 as [G _]. split.
+    + destruct G. constructor; assumption.
+    + constructor; simpl.
+      * now apply NoDup_map_filter.
+      * now apply NoDup_map_filter.
+      * intros r' q' H. apply remove_key_In in H. rewrite !upd_length. apply (B r'), H.
+      * apply Forall_upd; [intros; unfold accounted, released; simpl; lia|].
+        apply Forall_upd; [apply accounted_kill|assumption].
+  - now rewrite !upd_length.
+  - intros j. rewrite !nth_error_upd. destruct (Nat.eqb q j) eqn:Ej; [|reflexivity].
+    apply Nat.eqb_eq in Ej. subst j. rewrite Hqu. reflexivity.
+Qed.
+
+Lemma deregister_inv r t s : inv s -> inv (fst (deregister r t s)).
+Proof.
+  intros Hi. destruct (deregister_shape r t s Hi) as (s1 & mid & _ & _ & _ & -> & Hm & _).
+  simpl. now apply notify_inv.
+Qed.
+
+(* ---- consumers *)
+
+Lemma get_nowait_inv d q s : inv s -> inv (fst (get_nowait d q s)).
+Proof.
+  intros Hi. unfold get_nowait.
+  destruct (nth_error (heap s) q) as [qu|] eqn:Hq; [|assumption].
+  destruct (items qu) as [|e rest] eqn:It; [assumption|].
+  destruct Hi as [G [K V B U]].
+  assert (Aq : accounted qu) by (eapply Forall_nth_error; eassumption).
+  unfold accounted in Aq. rewrite It in Aq. simpl in Aq.
+  assert (forall u, List.length rest <= u ->
+            inv (St (subs s) (watches s) (queues s) (upd q (fun _ => Q rest (shut qu) u) (heap s)))) as Hgen.
+  { intros u Hu. split; [destruct G; constructor; assumption|].
+    constructor; simpl; try assumption.
+    - intros r' q' H. rewrite upd_length. eauto.
+    - apply Forall_upd; [|assumption]. intros. unfold accounted. simpl. exact Hu. }
+  destruct d; [destruct (unfinished qu) as [|u] eqn:Un|]; simpl; apply Hgen; lia.
+Qed.
+
+(* ---- every operation preserves the invariant *)
+
+Lemma step_inv o s : inv s -> inv (fst (step o s)).
+Proof.
+  intros Hi. destruct o; simpl.
+  - now apply register_inv.
+  - now apply subscribe_inv.
+  - now apply subscribe_only_inv.
+  - now apply unsubscribe_inv.
+  - now apply notify_inv.
+  - now apply kill_inv.
+  - now apply deregister_inv.
+  - assumption.
+  - assumption.
+  - now apply get_nowait_inv.
+  - now apply get_nowait_inv.
+Qed.
+
+Lemma run_app ops1 ops2 s : run (ops1 ++ ops2) s = run ops2 (run ops1 s).
+Proof. unfold run. apply fold_left_app. Qed.
+
+Lemma run_inv ops : forall s, inv s -> inv (run ops s).
+Proof.
+  induction ops as [|o ops IH]; intros s Hi; simpl; [assumption|].
+  apply IH. now apply step_inv.
+Qed.
+
+Lemma reachable_inv ops : inv (run ops empty).
+Proof. apply run_inv, inv_empty. Qed.
+
+(* ========================================================== the theorems *)
+
+(* ---- inverse views, acyclic graph: every reachable state *)
+
+Theorem views_inverse ops a b :
+  In (a, b) (subs (run ops empty)) <-> In (b, a) (watches (run ops empty)).
+Proof. apply (inv_inverse _ (proj1 (reachable_inv ops))). Qed.
+
+Theorem graph_acyclic ops : acyclic (watches (run ops empty)).
+Proof. apply (inv_acyclic _ (proj1 (reachable_inv ops))). Qed.
+
+Theorem views_are_sets ops :
+  NoDup (subs (run ops empty)) /\ NoDup (watches (run ops empty)).
+Proof. destruct (reachable_inv ops) as [[_ _ N1 N2] _]. auto. Qed.
+
+(* ---- the cycle check *)
+
+(* a refused operation leaves the state exactly as it was (any state) *)
+Theorem refused_unchanged o s s' : step o s = (s', Raised Cycle) -> s' = s.
+Proof.
+  destruct o; simpl.
+  - unfold register. destruct (lookup r (queues s)); intros H; discriminate.
+  - unfold subscribe. destruct (check_for_cycles _ _ _); intros H; try discriminate.
+    now injection H.
+  - unfold subscribe_only_to. destruct (check_for_cycles _ _ _); intros H; try discriminate.
+    + destruct (remove_all _ _ _) as [? [|]]; discriminate.
+    + now injection H.
+  - unfold unsubscribe. destruct (dremove _ _ (subs s)); [destruct (dremove _ _ (watches s))|];
+      intros H; discriminate.
+  - discriminate.
+  - unfold kill_resource. destruct (lookup r (queues s)); intros H; discriminate.
+  - unfold deregister, subscribe_only_to. rewrite check_nil.
+    destruct (remove_all _ _ _) as [? [|]]; [|intros H; discriminate].
+    simpl. destruct (lookup r (queues s)); [|intros H; discriminate].
+    destruct (nth_error _ _); [|intros H; discriminate].
+    destruct (drain_q _) as [? [|]]; intros H; discriminate.
+  - discriminate.
+  - discriminate.
+  - unfold get_nowait. destruct (nth_error _ _) as [qu|]; [|discriminate].
+    destruct (items qu); [destruct (shut qu); discriminate|discriminate].
+  - unfold get_nowait. destruct (nth_error _ _) as [qu|]; [|discriminate].
+    destruct (items qu); [destruct (shut qu); discriminate|].
+    destruct (unfinished qu); discriminate.
+Qed.
+
+(* the check never runs out of fuel on a reachable state: the Python loop terminates *)
+Theorem check_terminates ops sb rs :
+  check_for_cycles (watches (run ops empty)) sb rs <> OutOfFuel.
+Proof. apply check_fuel, graph_acyclic. Qed.
+
+(* subscribe: refused exactly when the new edge would close a cycle *)
+Theorem subscribe_cycle_refused ops sb r x :
+  let s := run ops empty in
+  ct (E (dadd sb r (watches s))) x x -> step (OSubscribe sb r) s = (s, Raised Cycle).
+Proof.
+  intros s C. simpl. unfold subscribe.
+  destruct (check_for_cycles (watches s) sb [r]) eqn:Ck; [|reflexivity|].
+  - exfalso.
+    destruct (new_cycle_needs_reach (E (watches s)) (E (dadd sb r (watches s))) sb (fun y => In y [r]))
+      with (x := x) as (y & Hy & Hc); [|apply graph_acyclic|exact C|].
+    + intros a b H. apply dadd_In in H. destruct H as [H|H]; [|now left].
+      injection H as -> ->. right. simpl. auto.
+    + exact (check_nocycle _ _ _ Ck y Hy Hc).
+  - exfalso. exact (check_terminates ops sb [r] Ck).
+Qed.
+
+Theorem subscribe_refused_only_if_cycle sb r s s' :
+  step (OSubscribe sb r) s = (s', Raised Cycle) -> ct (E (dadd sb r (watches s))) sb sb.
+Proof.
+  simpl. unfold subscribe. destruct (check_for_cycles (watches s) sb [r]) eqn:Ck; try discriminate.
+  intros _. destruct (check_cycle _ _ _ Ck) as (y & [<-|[]] & Hc).
+  eapply ct_rtc_ct.
+  - apply t_step. unfold E. apply dadd_In. now left.
+  - eapply rtc_mono; [|exact Hc]. intros a b H. unfold E. apply dadd_In. now right.
+Qed.
+
+(* subscribe_only_to: refused exactly when the replaced set of edges would close a cycle *)
+Theorem subscribe_only_cycle_refused ops sb rs x :
+  let s := run ops empty in
+  ct (E (dassign sb rs (watches s))) x x -> step (OSubscribeOnly sb rs) s = (s, Raised Cycle).
+Proof.
+  intros s C. simpl. unfold subscribe_only_to.
+  destruct (check_for_cycles (watches s) sb rs) eqn:Ck; [|reflexivity|].
+  - exfalso.
+    destruct (new_cycle_needs_reach (E (watches s)) (E (dassign sb rs (watches s))) sb (fun y => In y rs))
+      with (x := x) as (y & Hy & Hc); [|apply graph_acyclic|exact C|].
+    + intros a b H. apply dassign_In in H. tauto.
+    + exact (check_nocycle _ _ _ Ck y Hy Hc).
+  - exfalso. exact (check_terminates ops sb rs Ck).
+Qed.
+
+(* a path to [b] need not leave [b] *)
+Lemma rtc_avoid (R : relation nat) a b : rtc R a b -> rtc (fun x y => x <> b /\ R x y) a b.
+Proof.
+  intros H. apply clos_rt_rt1n in H. induction H as [|x y z S H IH]; [apply rt_refl|].
+  destruct (Nat.eq_dec x z) as [->|N]; [apply rt_refl|].
+  eapply rt_trans; [apply rt_step; split; eassumption|exact IH].
+Qed.
+
+Theorem subscribe_only_refused_only_if_cycle sb rs s s' :
+  step (OSubscribeOnly sb rs) s = (s', Raised Cycle) -> ct (E (dassign sb rs (watches s))) sb sb.
+Proof.
+  simpl. unfold subscribe_only_to. destruct (check_for_cycles (watches s) sb rs) eqn:Ck.
+  - destruct (remove_all _ _ _) as [? [|]]; discriminate.
+  - intros _. destruct (check_cycle _ _ _ Ck) as (y & Hy & Hc).
+    eapply ct_rtc_ct.
+    + apply t_step. unfold E. apply dassign_In. left. split; [reflexivity|exact Hy].
+    + eapply rtc_mono; [|exact (rtc_avoid _ _ _ Hc)]. intros a b [N H]. unfold E.
+      apply dassign_In. right. auto.
+  - discriminate.
+Qed.
+
+(* ---- no spurious failures on reachable states *)
+
+Theorem step_results ops o :
+  let s := run ops empty in
+  snd (step o s) <> ROutOfFuel /\ snd (step o s) <> Raised ValueError /\
+  snd (step o s) <> Raised OtherExn /\
+  (snd (step o s) = Raised KeyError ->
+     exists u r, o = OUnsubscribe u r /\ ~ In (r, u) (subs s) /\ fst (step o s) = s).
+Proof.
+  intros s. pose proof (reachable_inv ops) as Hi. fold s in Hi.
+  destruct o; simpl.
+  - unfold register. destruct (lookup r (queues s)); simpl; repeat split; discriminate.
+  - unfold subscribe. destruct (check_for_cycles (watches s) sb [r]) eqn:Ck; simpl;
+      repeat split; try discriminate.
+    intros _. exact (check_terminates ops sb [r] Ck).
+  - pose proof (subscribe_only_inv sb rs s Hi) as (_ & H1 & H2).
+    repeat split; try assumption; try (intros H; contradiction).
+    + unfold subscribe_only_to. destruct (check_for_cycles _ _ _); try discriminate.
+      destruct (remove_all _ _ _) as [? [|]]; discriminate.
+    + unfold subscribe_only_to. destruct (check_for_cycles _ _ _); try discriminate.
+      destruct (remove_all _ _ _) as [? [|]]; discriminate.
+  - destruct (unsubscribe_result u r s Hi) as [[H1 H2]|[H1 H2]]; rewrite H2; simpl;
+      repeat split; try discriminate.
+    intros _. exists u, r. auto.
+  - repeat split; discriminate.
+  - unfold kill_resource. destruct (lookup r (queues s)); simpl; repeat split; discriminate.
+  - destruct (deregister_shape r t s Hi) as (s1 & mid & _ & _ & _ & -> & _). simpl.
+    repeat split; discriminate.
+  - repeat split; discriminate.
+  - repeat split; discriminate.
+  - unfold get_nowait. destruct (nth_error (heap s) q) as [qu|]; [|repeat split; discriminate].
+    destruct (items qu); [destruct (shut qu)|]; simpl; repeat split; discriminate.
+  - unfold get_nowait. destruct (nth_error (heap s) q) as [qu|] eqn:Hq; [|repeat split; discriminate].
+    destruct (items qu) as [|e rest] eqn:It; [destruct (shut qu); simpl; repeat split; discriminate|].
+    destruct Hi as [_ [_ _ _ U]].
+    assert (Aq : accounted qu) by (eapply Forall_nth_error; eassumption).
+    unfold accounted in Aq. rewrite It in Aq. simpl in Aq.
+    destruct (unfinished qu); [lia|]. simpl. repeat split; discriminate.
+Qed.
+
+(* ---- notify: exactly once to each live subscriber, nobody else *)
+
+Lemma NoDup_map_snd_inj (m : list (nat * nat)) a b q :
+  NoDup (map snd m) -> In (a, q) m -> In (b, q) m -> a = b.
+Proof.
+  induction m as [|[k v] m IH]; simpl; [tauto|].
+  intros H. inversion H as [|? ? Hn Hd]; subst.
+  intros [H1|H1] [H2|H2].
+  - congruence.
+  - injection H1 as -> ->. destruct Hn. apply in_map_iff. exists (b, q). auto.
+  - injection H2 as -> ->. destruct Hn. apply in_map_iff. exists (a, q). auto.
+  - auto.
+Qed.
+
+Lemma active_mem n s j :
+  mem j (active_queues n s) = true <->
+  exists r, In (n, r) (subs s) /\ lookup r (queues s) = Some j.
+Proof.
+  rewrite mem_In. unfold active_queues. rewrite in_flat_map. split.
+  - intros (r & Hr & H). exists r. split; [now apply dget_In|].
+    destruct (lookup r (queues s)) as [q|]; simpl in H; [|tauto]. destruct H as [->|[]]. reflexivity.
+  - intros (r & Hr & L). exists r. split; [now apply dget_In|]. rewrite L. now left.
+Qed.
+
+Lemma active_NoDup n s :
+  NoDup (subs s) -> NoDup (map snd (queues s)) -> NoDup (active_queues n s).
+Proof.
+  intros N1 N2. unfold active_queues.
+  assert (Hl : NoDup (dget n (subs s))) by now apply dget_NoDup.
+  induction Hl as [|r l Hn Hd IH]; simpl; [constructor|].
+  destruct (lookup r (queues s)) as [q|] eqn:L; simpl; [|assumption].
+  constructor; [|assumption]. intros H. apply in_flat_map in H. destruct H as (r' & Hr' & H).
+  destruct (lookup r' (queues s)) as [q'|] eqn:L'; simpl in H; [|tauto].
+  destruct H as [->|[]]. apply lookup_In in L, L'.
+  assert (r = r') by (eapply NoDup_map_snd_inj; eassumption). subst. contradiction.
+Qed.
+
+Lemma notify_nth n t s j :
+  NoDup (subs s) -> NoDup (map snd (queues s)) ->
+  nth_error (heap (notify n t s)) j =
+  if mem j (active_queues n s) then option_map (put_quiet (ERes n t)) (nth_error (heap s) j)
+  else nth_error (heap s) j.
+Proof.
+  intros N1 N2. unfold notify. simpl. apply fold_upd_nth. now apply active_NoDup.
+Qed.
+
+(* queue object [q] belongs to a current subscriber of [n] and is not shut down *)
+Definition live_target (s : state) (n q : nat) : Prop :=
+  exists r qu, In (n, r) (subs s) /\ lookup r (queues s) = Some q /\
+               nth_error (heap s) q = Some qu /\ shut qu = false.
+
+Lemma notify_spec n t s : inv s ->
+  let s' := notify n t s in
+  subs s' = subs s /\ watches s' = watches s /\ queues s' = queues s /\
+  List.length (heap s') = List.length (heap s) /\
+  forall q qu, nth_error (heap s) q = Some qu ->
+    (live_target s n q -> nth_error (heap s') q = Some (push (ERes n t) qu)) /\
+    (~ live_target s n q -> nth_error (heap s') q = Some qu).
+Proof.
+  intros [[_ _ N1 _] [_ V _ _]] s'. repeat (split; [reflexivity|]).
+  split; [apply fold_upd_length|].
+  intros q qu Hq. unfold s'. rewrite notify_nth by assumption. rewrite Hq. split.
+  - intros (r & qu' & Hr & L & Hq' & Sh). rewrite Hq in Hq'. injection Hq' as <-.
+    assert (M : mem q (active_queues n s) = true) by (apply active_mem; eauto).
+    rewrite M. simpl. unfold put_quiet. now rewrite Sh.
+  - intros Hn. destruct (mem q (active_queues n s)) eqn:M; [|reflexivity].
+    simpl. unfold put_quiet. destruct (shut qu) eqn:Sh; [reflexivity|].
+    exfalso. apply Hn. apply active_mem in M. destruct M as (r & Hr & L).
+    exists r, qu. auto.
+Qed.
+
+Theorem notify_exact ops n t :
+  let s := run ops empty in
+  let s' := fst (step (ONotify n t) s) in
+  snd (step (ONotify n t) s) = RNone /\
+  subs s' = subs s /\ watches s' = watches s /\ queues s' = queues s /\
+  List.length (heap s') = List.length (heap s) /\
+  forall q qu, nth_error (heap s) q = Some qu ->
+    (live_target s n q -> nth_error (heap s') q = Some (push (ERes n t) qu)) /\
+    (~ live_target s n q -> nth_error (heap s') q = Some qu).
+Proof.
+  intros s s'. split; [reflexivity|]. apply notify_spec, reachable_inv.
+Qed.
+
+(* ---- deregister *)
+
+Local Arguments notify : simpl never.
+
+Theorem deregister_releases ops r t :
+  let s := run ops empty in
+  let s' := fst (step (ODeregister r t) s) in
+  snd (step (ODeregister r t) s) = RNone /\
+  lookup r (queues s') = None /\
+  (forall b, ~ In (r, b) (watches s')) /\ (forall a, ~ In (a, r) (subs s')) /\
+  List.length (heap s') = List.length (heap s) /\
+  (forall q qu, lookup r (queues s) = Some q -> nth_error (heap s) q = Some qu ->
+     nth_error (heap s') q = Some (released qu)) /\
+  (forall q qu, lookup r (queues s) <> Some q -> nth_error (heap s) q = Some qu ->
+     (live_target s r q -> nth_error (heap s') q = Some (push (ERes r t) qu)) /\
+     (~ live_target s r q -> nth_error (heap s') q = Some qu)).
+Proof.
+  intros s s'. pose proof (reachable_inv ops) as Hi. fold s in Hi.
+  destruct (deregister_shape r t s Hi) as (s1 & mid & _ & Hi1 & Hw & Eq & Him & Hs & Hwm & Hqm & Hlen & Hnth).
+  unfold s'. cbn [step]. rewrite Eq. cbn [fst snd].
+  destruct (notify_spec r t mid Him) as (Es & Ew & Eqs & El & Hn).
+  split; [reflexivity|]. split; [|split; [|split; [|split]]].
+  - rewrite Eqs, Hqm. apply lookup_remove_key.
+  - intros b H. rewrite Ew, Hwm in H. apply Hw in H. tauto.
+  - intros a H. rewrite Es, Hs in H. apply (inv_inverse _ (proj1 Hi1)) in H. apply Hw in H. tauto.
+  - now rewrite El.
+  - (* subscribers of r, seen from [mid], are those seen from [s] *)
+    assert (Hsub : forall x, In (r, x) (subs mid) <-> In (r, x) (subs s)).
+    { intros x. rewrite Hs, (inv_inverse _ (proj1 Hi1)), Hw, <- (inv_inverse _ (proj1 Hi)).
+      split; [tauto|]. intros H. split; [assumption|]. intros ->.
+      apply (inv_acyclic _ (proj1 Hi) r). apply t_step. unfold E.
+      now apply (inv_inverse _ (proj1 Hi)). }
+    assert (Hself : ~ In (r, r) (subs s)).
+    { intros H. apply (inv_acyclic _ (proj1 Hi) r). apply t_step. unfold E.
+      now apply (inv_inverse _ (proj1 Hi)). }
+    split.
+    + intros q qu L Hq.
+      assert (Hmid : nth_error (heap mid) q = Some (released qu)).
+      { rewrite Hnth, L, Nat.eqb_refl, Hq. reflexivity. }
+      apply (Hn q (released qu) Hmid). intros (x & qu' & Hx & Lx & _).
+      rewrite Hqm in Lx. destruct (Nat.eq_dec x r) as [->|N].
+      * rewrite lookup_remove_key in Lx. discriminate.
+      * rewrite lookup_remove_key_neq in Lx by assumption.
+        apply lookup_In in L, Lx. destruct Hi as [_ [_ V _ _]].
+        apply N. eapply NoDup_map_snd_inj; eassumption.
+    + intros q qu L Hq.
+      assert (Hmid : nth_error (heap mid) q = Some qu).
+      { rewrite Hnth. destruct (lookup r (queues s)) as [q0|]; [|assumption].
+        destruct (Nat.eqb q0 q) eqn:Eqq; [|assumption]. apply Nat.eqb_eq in Eqq. congruence. }
+      destruct (Hn q qu Hmid) as [H1 H2].
+      assert (LT : live_target mid r q <-> live_target s r q).
+      { split; intros (x & qu' & Hx & Lx & Hq' & Sh).
+        - apply Hsub in Hx. exists x, qu'. rewrite Hmid in Hq'. injection Hq' as <-.
+          assert (x <> r) by (intros ->; contradiction).
+          rewrite Hqm, lookup_remove_key_neq in Lx by assumption. auto.
+        - exists x, qu'. rewrite Hq in Hq'. injection Hq' as <-.
+          assert (x <> r) by (intros ->; contradiction).
+          rewrite Hqm, lookup_remove_key_neq by assumption. rewrite Hsub. auto. }
+      split; intros H; [apply H1|apply H2]; now rewrite LT.
+Qed.
+
+(* anything still waiting to get from the old queue is woken: the queue is
+   shut down and empty, so get raises QueueShutDown *)
+Theorem released_get_raises s q qu (d : bool) :
+  nth_error (heap s) q = Some (released qu) ->
+  step (if d then OGetDone q else OGet q) s = (s, Raised QueueShutDown).
+Proof.
+  intros H. destruct d; simpl; unfold get_nowait; rewrite H; reflexivity.
+Qed.
+
+(* register of an already registered resource returns its queue, notifies nobody *)
+Theorem register_again r t s q :
+  lookup r (queues s) = Some q -> step (ORegister r t) s = (s, RQueue q).
+Proof. intros H. simpl. unfold register. now rewrite H. Qed.
+
+(* every resource has its own queue object *)
+Theorem queues_private ops a b q :
+  let s := run ops empty in
+  lookup a (queues s) = Some q -> lookup b (queues s) = Some q -> a = b.
+Proof.
+  intros s La Lb. destruct (reachable_inv ops) as [_ [_ V _ _]].
+  apply lookup_In in La, Lb. eapply NoDup_map_snd_inj; eassumption.
+Qed.
